@@ -36,6 +36,8 @@ def pdec_v(t):
 
 def unwrap_int(v):
     """Decimal(I192(BInt)) -> z3 term"""
+    if v.kind == "undef":
+        return z3.IntVal(0)      # payload of a variant that is not the live one on this path
     while v.kind == "struct":
         v = v.fields[0]
     assert v.kind == "int", v
@@ -432,6 +434,8 @@ class ToInstant(Job):
 JOBS["C29"] = [FromInstant(), ToInstant()]
 
 JOBS_BY_NAME = {}
+
+import mir_jobs_engine  # noqa: E402,F401  (registers the radix-engine jobs in JOBS)
 
 
 def _index():
